@@ -1,0 +1,28 @@
+//go:build verif
+
+package cert
+
+import (
+	"crypto/ecdsa"
+	"crypto/rsa"
+)
+
+// verifRoundTripEC is never called. It exists under the verif build tag so that the verifier in /verif composes the
+// contracts of MarshalPKCS8PrivateKey and ParsePKCS8PrivateKey: writing a valid EC key and reading the bytes back
+// yields a key on the same curve with the same scalar and the same public point (property C17).
+func verifRoundTripEC(key *ecdsa.PrivateKey) (any, error) {
+	der, err := MarshalPKCS8PrivateKey(key)
+	if err != nil {
+		return nil, err
+	}
+	return ParsePKCS8PrivateKey(der)
+}
+
+// verifRoundTripRSA: the same composition for RSA keys.
+func verifRoundTripRSA(key *rsa.PrivateKey) (any, error) {
+	der, err := MarshalPKCS8PrivateKey(key)
+	if err != nil {
+		return nil, err
+	}
+	return ParsePKCS8PrivateKey(der)
+}
